@@ -44,7 +44,12 @@ MC = 1 << 80
 HC = 1 << 79
 TOL = 4096          # codes (= 0.004): slack after a float-valued transform (mean / resample)
 DTYPES = {"i8": np.int64, "i4": np.int32, "f8": np.float64, "f4": np.float32, "c16": np.complex128,
-          "c8": np.complex64}
+          "c8": np.complex64,
+          # narrow integer dtypes (typical detector frames): NumPy's reductions come back wider
+          "u1": np.uint8, "i1": np.int8, "u2": np.uint16, "i2": np.int16, "u4": np.uint32,
+          # oracle-only (narrow-dtype sweep): half precision and bool
+          "f2": np.float16, "b1": np.bool_}
+NARROW_INT = ("u1", "i1", "u2", "i2", "u4", "i4")
 CPLX = ("c16", "c8")
 CLS_CODE = {"Generic": 0, "D2": 2, "D3": 3, "D4": 4, "D4stem": 5}
 ERR_CODE = {"TypeErr": 1, "ValueErr": 2, "IndexErr": 3, "OtherErr": 4}
@@ -667,7 +672,7 @@ def oracle_attached(r):
 
 def same_dataset(x, y):
     """same array and calibration, bit for bit (NaN == NaN)"""
-    if type(x) is not type(y) or x.array.shape != y.array.shape:
+    if type(x) is not type(y) or x.array.shape != y.array.shape or x.array.dtype != y.array.dtype:
         return False
     if not np.array_equal(x.array, y.array, equal_nan=np.issubdtype(x.array.dtype, np.inexact)):
         return False
@@ -676,8 +681,99 @@ def same_dataset(x, y):
             and list(x.units) == list(y.units))
 
 
+def numpy_reference(arr, op, extra=None):
+    """NumPy's own result of the operation on the bare array -> (values | None, dtype | None); None where the
+    reference is not spelled out here (pad to an output shape: the split is the model's business, the dtype is
+    np.pad's; Fourier resampling: the kernel is outside the model, the dtype is that of NumPy's FFT round trip)"""
+    k = op["k"]
+    n = arr.ndim
+
+    def axes_list(ax):
+        axl = list(range(n)) if ax is None else [int(ax)] if isinstance(ax, (int, float)) else [int(a) for a in ax]
+        if any(not -n <= a < n for a in axl):
+            return None
+        axl = [a % n for a in axl]
+        return axl if len(set(axl)) == len(axl) else None
+
+    if k == "pad":
+        sp = op["spec"]
+        kw = dict(extra or {})
+        if sp[0] == "int":
+            return np.pad(arr, int(sp[1]), **kw), None
+        if sp[0] == "pair":
+            return np.pad(arr, (int(sp[1]), int(sp[2])), **kw), None
+        if sp[0] == "pairs":
+            return np.pad(arr, tuple((int(b), int(a)) for b, a in sp[1]), **kw), None
+        return None, arr.dtype
+    if k == "crop":
+        axl = axes_list(op["axes"])
+        w = op["w"][:1] if isinstance(op["axes"], (int, float)) else op["w"]
+        if axl is None or len(w) != len(axl):
+            return None, arr.dtype
+        sl = [slice(None)] * n
+        for a, (b, e) in zip(axl, w):
+            sl[a] = slice(int(b), int(e) if e != 0 else None)
+        return arr[tuple(sl)], None
+    if k == "bin":
+        axl = axes_list(op["axes"])
+        f = op["f"]
+        if axl is None or f == "bad":
+            return None, None
+        fs = [int(f)] * len(axl) if isinstance(f, int) else [int(x) for x in f]
+        if len(fs) != len(axl):
+            return None, None
+        out = arr
+        vol = 1
+        for a, fa in zip(axl, fs):
+            vol *= fa
+        # one reshape with a block axis after every binned axis, one np.sum over the block axes (a sum axis by
+        # axis would accumulate float data in another order)
+        fac = dict(zip(axl, fs))
+        sl, dims, red = [], [], []
+        for a in range(n):
+            if a in fac:
+                nb = arr.shape[a] // fac[a]
+                sl.append(slice(0, nb * fac[a]))
+                red.append(len(dims) + 1)
+                dims += [nb, fac[a]]
+            else:
+                sl.append(slice(None))
+                dims.append(arr.shape[a])
+        out = np.sum(arr[tuple(sl)].reshape(dims), axis=tuple(red))
+        if op["mean"]:
+            out = out / vol
+        return out, None
+    if k == "fourier":
+        with warnings.catch_warnings():
+            warnings.simplefilter("ignore")
+            z = np.fft.ifftn(np.fft.fftn(np.zeros((1,) * n, dtype=arr.dtype)))
+        return None, (z.real.dtype if np.isrealobj(arr) else z.dtype)
+    return None, None
+
+
+def _same_array(x, y, scale=1.0):
+    """shape, dtype and values; integer / bool data exactly, float / complex data up to the order of the additions
+    (np.sum's pairwise order depends on the memory layout of its input: a strided view and its contiguous copy may
+    differ in the last place; an intermediate overflow is order-dependent too, so non-finite entries are not compared)"""
+    if x.shape != y.shape or x.dtype != y.dtype:
+        return False
+    if not np.issubdtype(x.dtype, np.inexact):
+        return bool(np.array_equal(x, y))
+    eps = float(np.finfo(x.dtype).eps)
+    with warnings.catch_warnings(), np.errstate(all="ignore"):
+        warnings.simplefilter("ignore")
+        fin = np.isfinite(x) & np.isfinite(y)
+        xd, yd = x[fin].astype(np.complex128), y[fin].astype(np.complex128)
+        return bool(np.all(np.abs(xd - yd) <= 256 * eps * (np.abs(yd) + scale)))
+
+
+def _arr_str(a):
+    return "%s %s %s%s" % (a.dtype, list(a.shape), a.reshape(-1)[:4].tolist(), "..." if a.size > 4 else "")
+
+
 def oracle_inplace_eq_copy(t, op, extra=None):
-    """clause 4, on scratch copies: t.copy().op(in place) must equal t.op(copying)"""
+    """clause 4, on scratch copies: t.copy().op(in place) must equal t.op(copying) - array VALUES AND DTYPE and
+    calibration -, and both arrays must be NumPy's own result of the operation on the bare array"""
     with warnings.catch_warnings():
         warnings.simplefilter("ignore")
         c1 = t.copy()
@@ -690,6 +786,7 @@ def oracle_inplace_eq_copy(t, op, extra=None):
             r2 = apply_flagged(t.copy(), op, False, extra)
         except Exception as e:  # noqa: BLE001
             e2 = err_name(e)
+    op0 = op
     if extra:
         op = dict(op, kwargs=extra)
     if e1 != e2:
@@ -697,11 +794,87 @@ def oracle_inplace_eq_copy(t, op, extra=None):
             op_str(op), e1 or "succeeds", e2 or "succeeds")
     if e1 is None and not same_dataset(c1, r2):
         return "inplace-vs-copy", (
-            "%s: in-place result (shape %s origin %s sampling %s) differs from the copying variant "
-            "(shape %s origin %s sampling %s)" % (
-                op_str(op), c1.shape, list(c1.origin), list(c1.sampling), r2.shape, list(r2.origin),
-                list(r2.sampling)))
+            "%s on %s data: in-place result (%s origin %s sampling %s) differs from the copying variant "
+            "(%s origin %s sampling %s)" % (
+                op_str(op), t.array.dtype, _arr_str(c1.array), np.asarray(c1.origin).tolist(),
+                np.asarray(c1.sampling).tolist(), _arr_str(r2.array), np.asarray(r2.origin).tolist(),
+                np.asarray(r2.sampling).tolist()))
+    if e1 is None:
+        with warnings.catch_warnings():
+            warnings.simplefilter("ignore")
+            try:
+                ref, ref_dt = numpy_reference(t.array, op0, extra)
+            except Exception:  # noqa: BLE001 - NumPy rejects what the library accepted: nothing to compare with
+                ref = ref_dt = None
+        scale = 0.0
+        if ref is not None and np.issubdtype(t.array.dtype, np.inexact) and t.array.size:
+            mag = np.abs(t.array[np.isfinite(t.array)])
+            scale = float(mag.max()) * max(1, t.array.size // max(1, ref.size)) if mag.size else 0.0
+        for nm, got in (("copying", r2.array), ("in-place", c1.array)):
+            if ref is not None and not _same_array(got, ref, scale):
+                return "result-not-numpy", "%s on %s data: the %s variant gives %s, NumPy gives %s" % (
+                    op_str(op), t.array.dtype, nm, _arr_str(got), _arr_str(ref))
+            if ref_dt is not None and got.dtype != ref_dt:
+                return "result-not-numpy", "%s on %s data: the %s variant gives dtype %s, NumPy gives %s" % (
+                    op_str(op), t.array.dtype, nm, got.dtype, ref_dt)
     return None
+
+
+# ------------------------------------------------------------------------------------------
+# narrow-dtype sweep (oracle only): data whose dtype is narrower than what NumPy computes in
+
+
+def narrow_array(r, dt, shape):
+    """values at the edge of what the dtype holds: integers in the top eighth of the range (signed: 30% the
+    bottom eighth), floats in the top half of the finite range or (half of the arrays) around the largest
+    exactly-representable integers, where a result that is rounded back to the storage dtype differs"""
+    n = int(np.prod(shape))
+    T = DTYPES[dt]
+    if dt == "b1":
+        return np.array([r.random() < 0.7 for _ in range(n)], dtype=T).reshape(shape)
+    if np.issubdtype(T, np.integer):
+        info = np.iinfo(T)
+        hi, lo = int(info.max), int(info.min)
+        span = max(1, (hi - lo) // 8)
+        if lo < 0 and r.random() < 0.3:
+            vals = [lo + r.randint(0, span) for _ in range(n)]
+        else:
+            vals = [hi - r.randint(0, span) for _ in range(n)]
+        return np.array(vals, dtype=np.int64).astype(T).reshape(shape)
+    RT = np.float32 if dt == "c8" else T
+    fi = np.finfo(RT)
+    if r.random() < 0.5:
+        top = float(fi.max)
+        mk = lambda: r.choice([1, 1, -1]) * top * (0.5 + 0.5 * r.random())  # noqa: E731
+    else:
+        top = float(2 ** (fi.nmant + 1))
+        mk = lambda: float(r.choice([1, 1, -1]) * r.randint(int(top) // 2, int(top)))  # noqa: E731
+    with warnings.catch_warnings():
+        warnings.simplefilter("ignore")
+        if dt == "c8":
+            a = np.array([complex(mk(), mk()) for _ in range(n)], dtype=np.complex128).astype(T)
+        else:
+            a = np.array([mk() for _ in range(n)], dtype=np.float64).astype(T)
+    a = np.where(np.isfinite(a), a, T(1))
+    return a.astype(T).reshape(shape)
+
+
+def oracle_narrow(seed, dt, shape, op, extra=None):
+    """one flagged operation in both variants on narrow data -> (violations, array)"""
+    import random
+    arr = narrow_array(random.Random(seed), dt, shape)
+    n = len(shape)
+    cls = {2: "D2", 3: "D3", 4: "D4stem"}.get(n, "Generic")
+    ds = classes()[cls].from_array(arr.copy(), origin=[0.5 * i - 1 for i in range(n)],
+                                   sampling=[0.25 * (i + 1) for i in range(n)], units=["u%d" % i for i in range(n)])
+    snap = snapshot(ds)
+    bad = []
+    v = oracle_inplace_eq_copy(ds, op, extra)
+    if v:
+        bad.append(v)
+    if snapshot(ds) != snap or ds.array.dtype != arr.dtype or ds.array.tobytes() != arr.tobytes():
+        bad.append(("source-modified", "%s changed its source (%s data)" % (op_str(op), arr.dtype)))
+    return bad, arr
 
 
 def op_str(op):
@@ -884,7 +1057,7 @@ def c_tokens(op):
     n = 1
     for x in op["shape"]:
         n *= int(x)
-    return "(%s %d %d)" % ("tokc" if op["dt"] in CPLX else "tokr", n, int(op["base"]))
+    return "(%s %d (%d))" % ("tokc" if op["dt"] in CPLX else "tokr", n, int(op["base"]))
 
 
 def cnat_(n):
